@@ -164,6 +164,17 @@ func (a *dummyAccount) SignData([]byte) ([]byte, error) {
 	panic("dummy")
 }
 
+// hasDummyAccount reports whether the channel was created with accounts that
+// cannot sign, which is the case for the hub's copy of a virtual channel.
+func (c *Channel) hasDummyAccount() bool {
+	for _, acc := range c.machine.Account() {
+		if _, ok := acc.(*dummyAccount); ok {
+			return true
+		}
+	}
+	return false
+}
+
 const hubIndex = 0 // The hub's index in a virtual channel machine.
 
 func (c *Client) persistVirtualChannel(ctx context.Context, parent *Channel, peers []map[wallet.BackendID]wire.Address, params channel.Params, state channel.State, sigs []wallet.Sig) (*Channel, error) {
